@@ -292,7 +292,8 @@ class Registry:
 
     def norm_sort(self, ann, module):
         ann = ann.strip("'\"")
-        if ann in ("int", "bool", "bytes", "bytearray", "str", "memoryview", "None", "pystr", "dict", "opaque"):
+        if ann in ("int", "bool", "bytes", "bytearray", "str", "memoryview", "None", "pystr", "dict", "opaque") \
+                or ann.startswith("record("):
             return ann
         if ann.startswith("Optional["):
             return "Optional[" + self.norm_sort(ann[9:-1], module) + "]"
@@ -327,6 +328,14 @@ class Registry:
             return DictV(z3.Function(f"IN_{base}!{n}", PYSTR, BOOL), z3.Function(f"VAL_{base}!{n}", PYSTR, BOOL))
         if sort == "opaque":
             return OpaqueV(base)
+        if sort.startswith("record("):
+            flds = {}
+            body = sort[7:-1].strip()
+            ref = ex.alloc(ObjV(None, flds))
+            for part in [p for p in body.split(",") if p.strip()]:
+                k, v = part.split("=")
+                flds[k.strip()] = self.fresh_of_sort(ex, v.strip(), f"{base}.{k.strip()}", assume_inv)
+            return ref
         if sort in ("bytes", "bytearray", "str", "memoryview", "list", "tuple"):
             return ex.alloc(ex.fresh_seq(sort, base))
         if sort.startswith("Optional["):
@@ -401,6 +410,17 @@ class Registry:
         memo = {}
         for k, v in env.items():
             scope["old_" + k] = self.snap(ex, v, memo)
+        mclauses, mparams = con.clauses("must_raise")
+        if mclauses:
+            # one-directional contract: a normal return implies none of the conditions held on entry;
+            # the call may also fail for reasons the contract does not describe
+            conds = [simp(ex.truth(ex.ev(c, self.clause_frame(con, mparams, scope, ex)))) for exc, c in mclauses]
+            if ex.choose(2) == 1:
+                for path in con.modifies:
+                    self.havoc_path(ex, path, env)
+                raise PyExc(mclauses[0][0] if ex.choose(2) == 0 else "OpaqueFailure", node)
+            for t in conds:
+                ex.assume(z3.Not(t))
         rclauses, rparams = con.clauses("raises")
         live = []
         for exc, c in rclauses:
@@ -611,6 +631,8 @@ class Verifier:
                     self._entry_refs[path] = ex.heap[r.id].fields[k].id
             rclauses, rparams = con.clauses("raises")
             rconds = [(exc, ex.truth(ex.ev(c, reg.clause_frame(con, rparams, scope, ex)))) for exc, c in rclauses]
+            mclauses, mparams = con.clauses("must_raise")
+            mconds = [(exc, ex.truth(ex.ev(c, reg.clause_frame(con, mparams, scope, ex)))) for exc, c in mclauses]
             fr = Frame(fi, fi.module, dict(env))
             ex.frames = []
             try:
@@ -622,6 +644,10 @@ class Verifier:
             except PyExc as e:
                 allowed = [t for exc, t in rconds if exc == e.cls]
                 line = getattr(e.node, "lineno", 0)
+                if mclauses or e.cls == "OpaqueFailure":
+                    # must_raise contracts do not restrict which exceptions may escape
+                    ex.covers.append((short + ":cover:raise-" + e.cls, list(ex.pc)))
+                    return
                 if not allowed:
                     ex.oblige("no-exc", z3.BoolVal(False), f"{e.cls}@L{line}",
                               {"why": f"{e.cls} can escape but the contract does not allow it"})
@@ -635,6 +661,9 @@ class Verifier:
                 ex.covers.append((short + ":cover:raise-" + e.cls, list(ex.pc)))
                 return
             # normal exit
+            for exc, t in mconds:
+                ex.oblige("must-raise", z3.Not(t), exc,
+                          {"why": f"returned normally although the rule demands {exc}", "clause": None})
             for exc, t in rconds:
                 ex.oblige("raises-iff", z3.Not(t), exc,
                           {"why": f"returned normally although the condition for {exc} holds"})
